@@ -23,7 +23,7 @@ def apply(ctx, W):
     doc_let = fw.top_let(b, "doc")
     rules.outline(ctx, fw, b, doc_let, doc_let, "build__doc", "function: &grammar::Function", "function", outs=["doc"], types=["Option<String>"],
                   kind="try", mode="T", tags=("C17",), ensures=[("res is Ok ==> opt_string_view(res->Ok_0.0) == spec_doc(function.attributes.0@)", ("C17",))])
-    fn, u = fn_into_verus(ctx, fw, "build", ret="res", tags=U, unit="semantic::function::build", ensures=[
+    fn, u = fn_into_verus(ctx, fw, "build", ret="res", tags=U, unit="semantic::function::build", requires=["reg_wf(type_registry)"], ensures=[
         ("res is Ok ==> fn_built(type_registry, scope@, is_vfunc, *function, res->Ok_0)", ("C04", "C05", "C10", "C16", "C17"), "fn-built"),
     ])
     closure_annot(ctx, fw, u, closure_of_call(fw, fn, "then"), ret="b: FunctionBody",
@@ -48,10 +48,10 @@ def apply(ctx, W):
     # arguments
     coll = [m for m in fw.method_calls(fn, "collect")]
     mp = rules.map_collect_result(fw, fn, coll[0])
-    closure_annot(ctx, fw, u, closure_of_call(fw, fn, "map", 1), params=["a: &grammar::Argument"], ret="o: anyhow::Result<Argument>",
+    closure_annot(ctx, fw, u, closure_of_call(fw, fn, "map", 1), params=["a: &grammar::Argument"], ret="o: anyhow::Result<Argument>", requires=["reg_wf(type_registry)"],
                   ensures=["o is Ok ==> arg_built(type_registry, scope@, *a, o->Ok_0)"], tags=("C05", "C10"))
     # return type
-    closure_annot(ctx, fw, u, closure_of_call(fw, fn, "map", 2), params=["t: &grammar::Type"], ret="o: anyhow::Result<Type>",
+    closure_annot(ctx, fw, u, closure_of_call(fw, fn, "map", 2), params=["t: &grammar::Type"], ret="o: anyhow::Result<Type>", requires=["reg_wf(type_registry)"],
                   ensures=["o is Ok ==> Some(o->Ok_0) == spec_resolve_type(type_registry, scope@, *t)"], tags=("C05", "C10"))
     # calling convention default
     closure_annot(ctx, fw, u, closure_of_call(fw, fn, "unwrap_or_else"), ret="c: CallingConvention",
